@@ -239,3 +239,125 @@ func TestC14_Random(t *testing.T) {
 		r.Case(text+"\x00"+root.String(), !want.Singleton(), sampleOf(text, root, got.String()+" admissible="+want.String()), "admissible:"+want.String())
 	})
 }
+
+// TestC14_Views: maps whose values are several VIEWS of one object - a pointer to a struct and a
+// pointer to its first field (or its embedded first struct), a pointer to an array and to its
+// element 0: equal addresses, different types - next to ordinary entries. A quantifier over such a
+// map, and Filter.Execute on it, is repeated: error-or-not, the boolean, and the kept key set are
+// the same every time (and the ones the entries give when evaluated one by one).
+type c14Base struct {
+	ID   int
+	Kind string
+}
+
+type c14Svc struct {
+	c14Base
+	Name string
+}
+
+type c14ViewsCase struct {
+	Shape int    `json:"shape"`
+	Text  string `json:"text"`
+	ID    int    `json:"id"`
+	Extra int    `json:"extra"`
+}
+
+func c14ViewsMap(c *c14ViewsCase) map[string]interface{} {
+	svc := &c14Svc{c14Base: c14Base{ID: c.ID, Kind: "k"}, Name: "n"}
+	arr := &[3]c14Base{{ID: c.ID}, {ID: c.ID + 1}, {ID: c.ID + 2}}
+	m := map[string]interface{}{}
+	switch c.Shape {
+	case 0:
+		m["svc"], m["base"] = svc, &svc.c14Base // both have ID; only one has Name
+	case 1:
+		m["svc"], m["id"] = svc, &svc.ID // the second one is a *int: stepping into it is an error
+	case 2:
+		m["arr"], m["first"] = arr, &arr[0]
+	default:
+		m["a"], m["b"], m["c"] = svc, &svc.c14Base, &svc.ID
+	}
+	for i := 0; i < c.Extra; i++ {
+		m["x"+strconv.Itoa(i)] = &c14Svc{c14Base: c14Base{ID: i}, Name: "n"}
+	}
+	return m
+}
+
+func c14ViewsRun(t failer, c *c14ViewsCase) (mixed bool) {
+	f, ferr := bexpr.CreateFilter(c.Text)
+	ev, eerr := bexpr.CreateEvaluator(c.Text)
+	if ferr != nil || eerr != nil {
+		t.Fatalf("harness: %q rejected: %v %v", c.Text, ferr, eerr)
+	}
+	// entry by entry
+	m := c14ViewsMap(c)
+	var wantKeys []string
+	wantErr := false
+	for k, v := range m {
+		res, err := ev.Evaluate(v)
+		if err != nil {
+			wantErr = true
+		} else if res {
+			wantKeys = append(wantKeys, k)
+		}
+	}
+	sort.Strings(wantKeys)
+	want := fmt.Sprint(wantKeys)
+	if wantErr {
+		want = "error"
+	}
+	for i := 0; i < c14Repeats; i++ {
+		if i%20 == 19 {
+			m = c14ViewsMap(c)
+		}
+		out, err := f.Execute(m)
+		got := "error"
+		if err == nil {
+			var ks []string
+			for k := range out.(map[string]interface{}) {
+				ks = append(ks, k)
+			}
+			sort.Strings(ks)
+			got = fmt.Sprint(ks)
+		}
+		if got != want {
+			violation(t, "C14", "TestC14_Views", c, "Filter.Execute call %d on a map of views (shape %d) with %q: %s; evaluated entry by entry: %s", i+1, c.Shape, c.Text, got, want)
+		}
+	}
+	// the same map under a quantifier: one outcome, every time
+	q := "any m as k, v { v." + c.Text + " }"
+	if qe, err := bexpr.CreateEvaluator(q); err == nil {
+		var first string
+		for i := 0; i < c14Repeats; i++ {
+			res, err := qe.Evaluate(map[string]interface{}{"m": c14ViewsMap(c)})
+			o := fmt.Sprintf("%v/%v", res, err != nil)
+			if i == 0 {
+				first = o
+			} else if o != first {
+				violation(t, "C14", "TestC14_Views", c, "call %d of %q returned %s, the first call returned %s", i+1, q, o, first)
+			}
+		}
+	}
+	return wantErr || (len(wantKeys) > 0 && len(wantKeys) < len(m))
+}
+
+func init() {
+	replayers["TestC14_Views"] = func(t *testing.T, raw json.RawMessage) {
+		var c c14ViewsCase
+		if err := json.Unmarshal(raw, &c); err != nil {
+			t.Fatalf("bad case: %v", err)
+		}
+		c14ViewsRun(t, &c)
+		t.Logf("replay ok")
+	}
+}
+
+func TestC14_Views(t *testing.T) {
+	r := rec(t, "C14", c14Rule+"; TestC14_Views: maps holding several views of one object (equal addresses, different types) x filters / quantifiers that tell the views apart, repeated 200 times; non-trivial = an entry errors or kept and dropped entries coexist")
+	rapid.Check(t, func(t *rapid.T) {
+		id := rapid.IntRange(0, 3).Draw(t, "id")
+		c := &c14ViewsCase{Shape: rapid.IntRange(0, 3).Draw(t, "shape"), ID: id, Extra: rapid.IntRange(0, 6).Draw(t, "extra")}
+		c.Text = []string{"ID == " + strconv.Itoa(rapid.IntRange(0, 3).Draw(t, "lit")), "ID != " + strconv.Itoa(id), "Name == n", "Name != n", "Kind is empty", "Name is not empty", "ID == 1 or Name == n", "Name == n or ID == 1"}[rapid.IntRange(0, 7).Draw(t, "expr")]
+		mixed := c14ViewsRun(t, c)
+		r.Case(fmt.Sprintf("%d|%s|%d|%d", c.Shape, c.Text, c.ID, c.Extra), mixed, c, fmt.Sprintf("shape:%d", c.Shape), fmt.Sprintf("mixed:%v", mixed))
+	})
+}
